@@ -236,6 +236,15 @@ func cmdAnyutilReplay(args []string) {
 					dst := new(anypb.Any)
 					return dst, anyutil.MarshalFrom(dst, m, proto.MarshalOptions{Deterministic: true})
 				}},
+				// a destination that was used before: a stale URL, stale bytes and spare capacity;
+				// packed twice -- the result is a function of the source and the options alone
+				{"MarshalFrom", func() (*anypb.Any, error) {
+					dst := &anypb.Any{TypeUrl: "/stale.Type", Value: append(make([]byte, 0, len(refb)+64), 0xff, 0xfe, 0xfd)}
+					if err := anyutil.MarshalFrom(dst, m, proto.MarshalOptions{Deterministic: true}); err != nil {
+						return dst, err
+					}
+					return dst, anyutil.MarshalFrom(dst, m, proto.MarshalOptions{Deterministic: true})
+				}},
 				{"alias.New", func() (*anypb.Any, error) { return anyalias.New(m) }},
 			} {
 				var a *anypb.Any
